@@ -13,6 +13,7 @@ import itertools
 from ..gen import c01_enc as E
 from ..gen import c01_rsmi as R
 from ..gen import c01_str as T
+from ..gen import c01_hist as HI
 
 PID = "C01"
 COQ_HEADER = ("From Coq Require Import List NArith ZArith.\nFrom SK Require Import lib.Tok lib.LGraph model.C01_Model model.C02_Model model.C01_Opts model.C01_String.\n"
@@ -117,6 +118,10 @@ def impl(case):
     from synkit.Graph.ITS.its_construction import ITSConstruction
     from synkit.Graph.ITS.its_decompose import its_decompose
     k = case.get("kind", "")
+    if k == "hist-str":
+        return HI.obs_hist_str(case)
+    if k == "hist-pair":
+        return HI.obs_hist_pair(case)
     if k.startswith("str-eh"):
         return T.obs_pipeline_eh(case["rsmi"])
     if k.startswith("str-wopt"):
@@ -124,7 +129,11 @@ def impl(case):
     if k.startswith("str-"):
         return T.obs_pipeline(case["rsmi"])
     if k == "m2g":
-        return T.obs_m2g(case["smiles"], case["drop"], case["use"])
+        return T.obs_m2g(case["smiles"], case["drop"], case["use"], case.get("api", "transform"))
+    if k == "g2r":
+        return T.obs_g2r(case["rsmi"])
+    if k == "g2m":
+        return T.obs_g2m(case["G"], case["ibo"], case["uhc"])
     if k == "ih":
         return T.obs_ih(case["G"], case["pres"])
     gh = _graphs_nx(case)
@@ -146,10 +155,18 @@ def coq_case(case):
     worker_init()
     k = case.get("kind", "")
     try:
+        if k == "hist-str":
+            return HI.coq_hist_str(case) if R.well_formed(case["rsmi"]) else None
+        if k == "hist-pair":
+            return HI.coq_hist_pair(case)
         if k.startswith("str-"):
-            return T.coq_pipeline(case["rsmi"], k.startswith("str-eh"), k.startswith("str-wopt")) if R.well_formed(case["rsmi"]) else None
+            return T.coq_pipeline(case["rsmi"], k.startswith("str-eh"), k.startswith("str-wopt")) if case["rsmi"].count(">") == 2 and case["rsmi"].count(">>") == 1 else None
         if k == "m2g":
             return T.coq_m2g(case["smiles"], case["drop"], case["use"])
+        if k == "g2r":
+            return T.coq_g2r(case["rsmi"]) if case["rsmi"].count(">>") == 1 else None
+        if k == "g2m":
+            return T.coq_g2m(case["G"], case["ibo"], case["uhc"])
         if k == "ih":
             return T.coq_ih(case["G"], case["pres"])
     except (KeyError, TypeError, ValueError):
@@ -352,8 +369,12 @@ def ih_clauses(gjson, pres):
 def oracle(case):
     if case.get("kind") == "ih":
         return ih_clauses(case["G"], case["pres"])
-    if case.get("kind") == "m2g":
+    if case.get("kind") in ("m2g", "g2r", "g2m"):
         return []
+    if case.get("kind") == "hist-str":
+        return HI.oracle_hist_str(case, string_clauses, R.well_formed)
+    if case.get("kind") == "hist-pair":
+        return HI.oracle_hist_pair(case, graph_clauses, balanced_pair)
     gh = _graphs_nx(case)
     fails = []
     if gh is None:
@@ -407,8 +428,10 @@ def neighbours(case, rng):
 def nontrivial(case, obs):
     if case.get("kind") == "ih":
         return bool(case["pres"]) and any(a["element"] == "H" for _, a in case["G"]["nodes"])
-    if case.get("kind") == "m2g":
+    if case.get("kind") in ("m2g", "g2r", "g2m"):
         return False
+    if case.get("kind", "").startswith("hist-"):
+        return True
     gh = _graphs_nx(case)
     if gh is None:
         return False
@@ -442,6 +465,11 @@ def distribution(cases, obss):
                         if x in hs:
                             par[y] = par.get(y, 0) + 1
                 extra["ih_two_or_more_preserved_on_one_atom"] += any(v >= 2 for v in par.values())
+                continue
+            if k.startswith("hist-"):
+                extra["history_steps"] = extra.get("history_steps", 0) + len(c["steps"])
+                continue
+            if k in ("g2r", "g2m"):
                 continue
             if k == "m2g":
                 extra["m2g_with_unmapped_atoms"] += ":" not in c["smiles"] or c["smiles"].count("[") > c["smiles"].count(":")
@@ -713,6 +741,9 @@ HAND_STR = [
     "[CH2:1]%10[CH2:2][CH2:3][CH2:4][CH2:5][CH:6]%10[Br:7].[OH2:8]>>[CH2:1]%11[CH2:2][CH2:3][CH2:4][CH2:5][CH:6]%11[OH:8].[BrH:7]",
     "[NH3:1].[H+:2]>>[NH3+:1][H:2]",
     "[O-:1][CH3:2].[H:3][Cl:4]>>[O:1]([H:3])[CH3:2].[Cl-:4]",
+    # radicals: atoms with hcount 0 and an open valence (RDKit would add hydrogens if the explicit count were not set)
+    "[CH3:1].[Cl:2][Cl:3]>>[CH3:1][Cl:2].[Cl:3]",
+    "[O:1].[O:2]=[O:3]>>[O:1][O:2][O:3]",
     # a charged and a neutral hydrogen in the same reaction centre
     "[NH3:1].[H+:2].[Cl:3][H:4].[OH-:5]>>[NH3+:1][H:2].[Cl-:3].[OH:5][H:4]",
 ]
@@ -754,6 +785,18 @@ def gen_str(rsmi_cases, rng, n_exph):
         x = re.sub(r":(\d+)\]", lambda m: ":%d]" % table[int(m.group(1))], c["rsmi"])
         cases.append(dict(kind="str-renum100", rsmi=x, src=c.get("src")))
         cases.append(dict(kind="renum100", rsmi=x, src=c.get("src")))
+    for k in range(3 if n_exph <= 30 else 12):                 # >= 100 atoms: several corpus reactions side by side, maps shifted
+        parts, off, n_at = [], 0, 0
+        for c in rng.sample(pool, min(len(pool), 6)):
+            ms = R.map_numbers(c["rsmi"])
+            parts.append(re.sub(r":(\d+)\]", lambda m: ":%d]" % (int(m.group(1)) + off), c["rsmi"]))
+            off += max(ms) + rng.choice((0, 3, 50))
+            n_at += len(ms)
+            if n_at >= 110:
+                break
+        big = ".".join(p.split(">>")[0] for p in parts) + ">>" + ".".join(p.split(">>")[1] for p in parts)
+        for kind in ("str-big", "big", "str-eh-big", "str-wopt-big"):
+            cases.append(dict(kind=kind, rsmi=big, src="big#%d" % k))
     for i, r in enumerate(HAND_STR):
         cases.append(dict(kind="str-hand", rsmi=r, src="hand#%d" % i))
         cases.append(dict(kind="hand", rsmi=r, src="hand#%d" % i))
@@ -789,7 +832,8 @@ def gen_m2g(rsmi_cases, rng, count):
     for s in sides[:count]:
         for f in s.split(".")[:2] + [s]:
             drop, use = rng.choice(((True, True), (False, True), (False, False), (True, False)))
-            cases.append(dict(kind="m2g", smiles=f if rng.random() < 0.5 else _unmap_some(f, rng), drop=drop, use=use))
+            cases.append(dict(kind="m2g", smiles=f if rng.random() < 0.5 else _unmap_some(f, rng), drop=drop, use=use,
+                              api=rng.choice(("transform", "transform", "store", "light", "detailed", "smiles_to_graph"))))
     return cases
 
 
@@ -846,6 +890,56 @@ def gen_ih(rng, count):
     return cases
 
 
+DEGEN_STR = [">>", "[CH4:1]>>[CH4:1]", "[CH4:1]>>", ">>[CH4:1]", "C>>C", "CC.O>>CCO", "[H+:1]>>[H+:1]", "[CH3:1][CH3:2]>>[CH3:1][CH3:2]",
+             "[Na+:1].[Cl-:2]>>[Na+:1].[Cl-:2]", "[CH4:0]>>[CH4:0]", "[CH3:1][OH:2].[OH2:3]>>[CH3:1][OH:3].[OH2:2]",
+             "[H:1][H:2]>>[H:1][H:2]", "[He:1]>>[He:1]", "[CH3:1][CH2:2][OH:3]>>[CH3:1][CH2:2][OH:3]", "[O-2:1].[Fe+3:2]>>[O-2:1].[Fe+3:2]",
+             "[CH2:1000000]=[CH2:999999]>>[CH2:1000000]=[CH2:999999]"]
+
+
+def gen_degenerate(rng):
+    """degenerate values (ROUND3_BRIEF item C): empty graphs / sides, single atoms, node id and atom map 0, isolated atoms, huge
+    ids, falsy and extreme labels; as graph pairs (default and PRNG options) and as reaction strings through every pipeline kind"""
+    cases = []
+    empty = {"nodes": [], "edges": []}
+
+    def one(ids, els, hcs, chs, edges=None, amap0=False):
+        g = E.mk_side(ids, [(e, h, c) for e, h, c in zip(els, hcs, chs)], edges or {}, rng, True)
+        if amap0:
+            for _, a in g["nodes"]:
+                a["atom_map"] = 0
+        return g
+    shapes = [
+        (empty, empty), (one([0], ["C"], [0], [0]), one([0], ["C"], [4], [0])), (one([7], ["C"], [0], [0]), empty), (empty, one([7], ["N"], [3], [0])),
+        (one([0, 5, 1000000], ["C", "H", "O"], [0, 0, 0], [0, 0, -2]), one([0, 5, 1000000], ["C", "H", "O"], [1, 0, 1], [0, 1, 0])),
+        (one([1, 2], ["", "*"], [0, 0], [0, 0], {(0, 1): 1}), one([1, 2], ["", "*"], [0, 0], [0, 0], {(0, 1): 2})),
+        (one([1, 2], ["C", "C"], [0, 0], [0, 0], {(0, 1): 1}, True), one([1, 2], ["C", "C"], [0, 0], [0, 0], {(0, 1): 1}, True)),
+        (one([3, 4], ["Fe", "O"], [0, 0], [3, -2], {(0, 1): 3}), one([3, 4], ["Fe", "O"], [0, 0], [2, -1], {})),
+        (one([1, 2, 3], ["H", "H", "H"], [0, 0, 0], [0, 0, 1], {(0, 1): 1}), one([1, 2, 3], ["H", "H", "H"], [0, 0, 0], [1, 0, 0], {(1, 2): 1})),
+        (one([9, 8], ["C", "C"], [99, 0], [0, 0], {(0, 1): 1.5}), one([9, 8], ["C", "C"], [0, 99], [0, 0], {(0, 1): 1.5})),
+    ]
+    for G, H in shapes:
+        cases.append(dict(kind="degen", G=G, H=H))
+        cases.append(dict(kind="degen", G=H, H=G))
+        for _ in range(2):
+            cases.append(dict(kind="opt-degen", G=G, H=H, opts=_opts(rng)))
+    for r in DEGEN_STR:
+        cases.append(dict(kind="degen", rsmi=r))
+        for k in ("str-degen", "str-eh-degen", "str-wopt-degen"):
+            cases.append(dict(kind=k, rsmi=r))
+    return cases
+
+
+def gen_histories(rsmi_cases, rng, n_str, n_pair):
+    """HISTORY cases (notes/ROUND3_BRIEF.md item B): sequences of calls on shared objects / the same strings"""
+    rs = [c["rsmi"] for c in rsmi_cases if c.get("kind") == "corpus" and R.well_formed(c["rsmi"])] + list(HAND_STR)
+    rng.shuffle(rs)
+    pairs = gen_random(rng, 40, maxn=6) + gen_four(rng, 20) + gen_opts_arom(rng, 10)
+    extra = [dict(kind="g2r", rsmi=r) for r in rs[:max(12, n_str // 2)]]
+    for c in gen_ih(rng, max(40, n_pair // 3)):
+        extra.append(dict(kind="g2m", G=c["G"], ibo=rng.random() < 0.5, uhc=rng.random() < 0.5))
+    return HI.gen_hist_str(rs, rng, n_str) + HI.gen_hist_pair(pairs, rng, n_pair, _opts) + extra
+
+
 def gen_cases(tier, rng):
     cases = gen_exhaustive_small(rng) + gen_three(rng)
     if tier == "quick":
@@ -854,10 +948,12 @@ def gen_cases(tier, rng):
         cor = gen_corpus(rng, 40, 1)
         cases += cor + add_corpus_opts(cor, rng, 0.5)
         cases += gen_str(cor, rng, 25) + gen_m2g(cor, rng, 60) + gen_ih(rng, 600)
+        cases += gen_histories(cor, rng, 40, 120) + gen_degenerate(rng)
     else:
         cases += gen_four(rng, 30000) + gen_random(rng, 12000) + gen_malformed(rng, 6000)
         cases += gen_opts_exhaustive(rng) + gen_opts_arom(rng, 2000) + gen_opts_random(rng, 8000, 4000)
         cor = gen_corpus(rng, None, 2)
         cases += cor + add_corpus_opts(cor, rng, 0.5)
         cases += gen_str(cor, rng, 300) + gen_m2g(cor, rng, 600) + gen_ih(rng, 8000)
+        cases += gen_histories(cor, rng, 300, 1500) + gen_degenerate(rng)
     return cases
